@@ -350,6 +350,106 @@ func runC15(c *Ctx) {
 		c.verdict(okCopy && nCopy >= 1, c.nm(trigger)+" | the rebroadcast goroutine gets a fresh copy of the pending set (tx.Copy())", c.P.Pos(trigger.Pos()), "fresh map with copied transactions", "the rebroadcast goroutine shares the handler's pending map or its transactions (data race / sees later mutations)")
 	})
 
+	c.rule("C15.T2", "the broadcaster recognises the verdicts the client produces: pushtx.IsBroadcastError classifies an error by asserting its dynamic type (*BroadcastError), so every error the Broadcast callback (ChainService.sendTransaction and the closure wired into pushtx.Config.Broadcast) returns that stems from a peer's reject must be that *BroadcastError itself, not a wrapped error (the two sides agree: assertion-based classifier <-> unwrapped producer; an errors.As-based classifier would admit wrapping)", func() {
+		c.graph()
+		be := c.P.Named("pushtx", "BroadcastError")
+		isBEType := func(t types.Type) bool {
+			p, ok := t.(*types.Pointer)
+			return ok && be != nil && types.Identical(p.Elem(), be)
+		}
+		// classifier
+		cls := c.fn("pushtx.IsBroadcastError")
+		asserts, unwraps := 0, 0
+		ir.Instrs(cls, func(in ssa.Instruction) {
+			if ta, ok := in.(*ssa.TypeAssert); ok && isBEType(ta.AssertedType) && ta.X == ssa.Value(cls.Params[0]) {
+				asserts++
+			}
+			if cc := ir.CallOf(in); cc != nil {
+				if cal := ir.Resolve(cc); cal.Func != nil && cal.Func.Pkg() != nil && cal.Func.Pkg().Path() == "errors" && (cal.Func.Name() == "As" || cal.Func.Name() == "Unwrap") {
+					unwraps++
+				}
+			}
+		})
+		byAssertion := asserts >= 1 && unwraps == 0
+		c.verdict(asserts >= 1 || unwraps >= 1, c.nm(cls)+" | how a broadcast error is recognised", c.P.Pos(cls.Pos()), fmt.Sprintf("type assertion on the error itself: %v; errors.As/Unwrap: %v", asserts >= 1, unwraps >= 1), "IsBroadcastError neither asserts *BroadcastError nor unwraps")
+		// producers: the functions wired into Config.Broadcast and the module functions whose result they return
+		var prods []*ssa.Function
+		seen := map[*ssa.Function]bool{}
+		var addProd func(f *ssa.Function, depth int)
+		addProd = func(f *ssa.Function, depth int) {
+			if f == nil || seen[f] || depth > 2 {
+				return
+			}
+			seen[f] = true
+			prods = append(prods, f)
+			for _, r := range find(f, isExit) {
+				res := r.(*ssa.Return).Results
+				if len(res) == 0 {
+					continue
+				}
+				if call, ok := ir.RetVal(r.(*ssa.Return), len(res)-1).(*ssa.Call); ok {
+					if cal := ir.Resolve(call.Common()); cal.Fn != nil && c.isModFn[cal.Fn] {
+						addProd(cal.Fn, depth+1)
+					}
+				}
+			}
+		}
+		bf := c.field("pushtx", "Config", "Broadcast")
+		for _, f := range c.P.Funcs {
+			for _, st := range find(f, storeToField(bf)) {
+				for _, t := range c.valueFuncs(st.(*ssa.Store).Val, 0) {
+					addProd(t, 0)
+				}
+			}
+		}
+		var bad, sites []string
+		nRej := 0
+		for _, f := range prods {
+			// reject-derived values inside f: *BroadcastError values boxed into an
+			// error, or results of f's own closures that return such values
+			retBE := map[*ssa.Function]bool{}
+			for _, a := range f.AnonFuncs {
+				for _, r := range find(a, isExit) {
+					for _, v := range r.(*ssa.Return).Results {
+						if mi, ok := v.(*ssa.MakeInterface); ok && isBEType(mi.X.Type()) {
+							retBE[a] = true
+						}
+					}
+				}
+			}
+			src := func(v ssa.Value) bool {
+				if mi, ok := v.(*ssa.MakeInterface); ok && isBEType(mi.X.Type()) {
+					return true
+				}
+				if call, ok := v.(*ssa.Call); ok {
+					for _, t := range c.valueFuncs(call.Call.Value, 0) {
+						if retBE[t] {
+							return true
+						}
+					}
+				}
+				return false
+			}
+			for _, r := range find(f, isExit) {
+				res := r.(*ssa.Return).Results
+				if len(res) == 0 {
+					continue
+				}
+				v := ir.RetVal(r.(*ssa.Return), len(res)-1)
+				if !ir.InfluencedBy(v, src) {
+					continue
+				}
+				nRej++
+				sites = append(sites, c.nm(f)+"@"+c.at(r))
+				if byAssertion && !ir.DerivesFrom(v, src) {
+					bad = append(bad, "return at "+c.at(r)+" in "+c.nm(f)+" wraps the peer's reject in another error: IsBroadcastError (a plain type assertion) no longer recognises Mempool/Confirmed verdicts, so the transaction is not tracked / not retired")
+				}
+			}
+		}
+		sort.Strings(bad)
+		c.verdict(len(bad) == 0 && nRej >= 2 && len(prods) >= 2, "Broadcast callback | reject verdicts reach the broadcaster unwrapped", "-", fmt.Sprintf("%d producer function(s), %d reject-derived return(s), all returned as *BroadcastError", len(prods), nRej), join(bad)+fmt.Sprintf(" (%d producers, %d reject-derived returns)", len(prods), nRej), sites...)
+	})
+
 	c.rule("C15.T1", "verdict of the broadcast query: an error is returned only when every replying peer rejected, or when the invalid ratio reaches the threshold (>=); the reject classification maps the tabled reject codes / reason fragments to their codes (Mempool and Confirmed fragments in particular)", func() {
 		fn := c.fn(fnSendTx)
 		var nonNil []ssa.Instruction
